@@ -1043,22 +1043,21 @@ impl Translator {
                 //     .map(|(i, _)| make_label(&format!("arm{i}")))
                 //     .collect::<Vec<_>>();
                 let mut arm_labels = vec![];
-                let mut or_pat_decisions = HashSet::default();
+                let scrutinee_is_void = ty == SolvedType::Void;
                 for (i, arm) in arms.iter().enumerate() {
+                    // One comparison per combination of alternatives of the arm's or-patterns,
+                    // leftmost alternatives first. `or_pat_decisions` holds the or-patterns that
+                    // currently take their right alternative.
+                    let mut or_pat_decisions: HashSet<NodeId> = HashSet::default();
                     loop {
-                        let mut went_left = false;
-                        self.traverse_arm_pat(
-                            &arm.pat,
-                            mono,
-                            &mut or_pat_decisions,
-                            &mut went_left,
-                        );
-
                         let arm_label = make_label(&format!("arm{i}"));
-                        arm_labels.push((arm_label.clone(), arm.clone()));
+                        arm_labels.push((arm_label.clone(), arm.clone(), or_pat_decisions.clone()));
 
                         // duplicate the scrutinee before doing a comparison
-                        self.emit(st, Instr::Duplicate);
+                        // (a void scrutinee occupies no stack slot)
+                        if !scrutinee_is_void {
+                            self.emit(st, Instr::Duplicate);
+                        }
                         self.translate_pat_comparison(
                             &ty,
                             &arm.pat,
@@ -1068,18 +1067,25 @@ impl Translator {
                         );
                         self.emit(st, Instr::JumpIf(arm_label));
 
-                        if !went_left {
-                            break;
+                        // advance to the next combination: the last visited or-pattern that took
+                        // its left alternative goes right, the ones after it start over
+                        let mut visited = vec![];
+                        self.traverse_arm_pat(&arm.pat, mono, &or_pat_decisions, &mut visited);
+                        match visited.iter().rposition(|(_, went_right)| !*went_right) {
+                            None => break,
+                            Some(k) => {
+                                or_pat_decisions.insert(visited[k].0);
+                                for (id, _) in &visited[k + 1..] {
+                                    or_pat_decisions.remove(id);
+                                }
+                            }
                         }
                     }
                 }
-                let mut or_pat_decisions = HashSet::default();
-                // let mut label_index = 0;
-                for (i, (arm_label, arm)) in arm_labels.iter().enumerate() {
-                    // let arm_label = &arm_labels[label_index];
-                    // label_index += 1;
+                for (i, (arm_label, arm, decisions)) in arm_labels.iter().enumerate() {
                     self.emit(st, arm_label.clone());
 
+                    let mut or_pat_decisions = decisions.clone();
                     self.handle_pat_binding(
                         &arm.pat,
                         offset_table,
@@ -1949,7 +1955,6 @@ impl Translator {
                 if !or_pat_decisions.contains(&pat.id) {
                     let left_ty = self.get_ty(mono, left.node()).unwrap();
                     self.translate_pat_comparison(&left_ty, left, st, mono, or_pat_decisions);
-                    or_pat_decisions.insert(pat.id);
                 } else {
                     let right_ty = self.get_ty(mono, right.node()).unwrap();
                     self.translate_pat_comparison(&right_ty, right, st, mono, or_pat_decisions);
@@ -2674,40 +2679,41 @@ impl Translator {
         &self,
         pat: &Rc<Pat>,
         mono: &MonomorphEnv,
-        or_pat_decisions: &mut HashSet<NodeId>,
-        went_left: &mut bool,
+        or_pat_decisions: &HashSet<NodeId>,
+        visited: &mut Vec<(NodeId, bool)>,
     ) {
         match &*pat.kind {
             PatKind::Tuple(pats) => {
                 for pat in pats.iter() {
-                    self.traverse_arm_pat(pat, mono, or_pat_decisions, went_left);
+                    self.traverse_arm_pat(pat, mono, or_pat_decisions, visited);
                 }
             }
             PatKind::Struct(name, field_pats) => {
                 for pat in self.struct_pat_fields_in_order(name, field_pats) {
-                    self.traverse_arm_pat(&pat, mono, or_pat_decisions, went_left);
+                    self.traverse_arm_pat(&pat, mono, or_pat_decisions, visited);
                 }
             }
             PatKind::Variant(_prefixes, tag, inner) => match inner {
                 Some(PatVariantData::Positional(inner)) => {
                     let pat_ty = self.get_ty(mono, pat.node()).unwrap();
                     if pat_ty != SolvedType::Void {
-                        self.traverse_arm_pat(inner, mono, or_pat_decisions, went_left);
+                        self.traverse_arm_pat(inner, mono, or_pat_decisions, visited);
                     }
                 }
                 Some(PatVariantData::Named(named)) => {
                     for pat in self.variant_named_pats_in_order(tag, named) {
-                        self.traverse_arm_pat(&pat, mono, or_pat_decisions, went_left);
+                        self.traverse_arm_pat(&pat, mono, or_pat_decisions, visited);
                     }
                 }
                 None => {}
             },
             PatKind::Or(left, right) => {
                 if !or_pat_decisions.contains(&pat.id) {
-                    self.traverse_arm_pat(left, mono, or_pat_decisions, went_left);
-                    *went_left = true;
+                    visited.push((pat.id, false));
+                    self.traverse_arm_pat(left, mono, or_pat_decisions, visited);
                 } else {
-                    self.traverse_arm_pat(right, mono, or_pat_decisions, went_left);
+                    visited.push((pat.id, true));
+                    self.traverse_arm_pat(right, mono, or_pat_decisions, visited);
                 }
             }
             PatKind::Binding(_)
